@@ -1,0 +1,22 @@
+//! Accessors for crate-private PST13 items (only with `--cfg pc_verif`).
+use super::{combinations::Combinations, MarlinPST13};
+use ark_ec::pairing::Pairing;
+use ark_poly::DenseMVPolynomial;
+use ark_std::ops::Index;
+#[cfg(not(feature = "std"))]
+use ark_std::vec::Vec;
+
+/// All outputs of `Combinations::new(original, len)`.
+pub fn combinations(original: Vec<usize>, len: usize) -> Vec<Vec<usize>> {
+    Combinations::new(original, len).collect()
+}
+
+/// Wrapper around `MarlinPST13::divide_at_point`.
+pub fn divide_at_point<E, P>(p: &P, point: &P::Point) -> Vec<P>
+where
+    E: Pairing,
+    P: DenseMVPolynomial<E::ScalarField>,
+    P::Point: Index<usize, Output = E::ScalarField>,
+{
+    MarlinPST13::<E, P>::divide_at_point(p, point)
+}
